@@ -5,6 +5,7 @@ pub mod c07;
 pub mod c13;
 pub mod c15;
 pub mod c16;
+pub mod c19;
 pub mod c20;
 
 use crate::engine::PropFn;
@@ -18,6 +19,7 @@ pub fn table() -> Vec<(&'static str, PropFn)> {
         ("C13", c13::run as PropFn),
         ("C15", c15::run as PropFn),
         ("C16", c16::run as PropFn),
+        ("C19", c19::run as PropFn),
         ("C20", c20::run as PropFn),
     ]
 }
